@@ -7,6 +7,25 @@ use std::fmt::Debug;
 mod binder_impls;
 mod boring_impls;
 mod in_place;
+/// Verification hook: drives the in-place mapping helpers directly.
+#[cfg(chalk_verif)]
+pub mod verif {
+    /// See `in_place::fallible_map_vec`.
+    pub fn fallible_map_vec<T, U, E>(
+        vec: Vec<T>,
+        map: impl FnMut(T) -> Result<U, E>,
+    ) -> Result<Vec<U>, E> {
+        super::in_place::fallible_map_vec(vec, map)
+    }
+
+    /// See `in_place::fallible_map_box`.
+    pub fn fallible_map_box<T, U, E>(
+        b: Box<T>,
+        map: impl FnOnce(T) -> Result<U, E>,
+    ) -> Result<Box<U>, E> {
+        super::in_place::fallible_map_box(b, map)
+    }
+}
 pub mod shift;
 mod subst;
 
